@@ -5,7 +5,7 @@ use crate::machine::{self, tm_apply, tm_expect, tm_judge, tm_op_name, TmOp};
 use crate::real::{dt_from_off, off_secs, time_from};
 use crate::refmodel::calendar as cal;
 use astrolabe::errors::AstrolabeError;
-use astrolabe::{OffsetUtilities, Time};
+use astrolabe::{OffsetUtilities, Time, TimeUtilities};
 use serde_json::{json, Value};
 
 fn case_op(nanos: u64, off: i32, op: &TmOp, acc: &mut Acc) {
@@ -50,6 +50,53 @@ fn case_op_d(nanos: u64, off: i32, op: &TmOp, display: bool, acc: &mut Acc) {
         _ => false,
     };
     acc.branch(if wrapped { "wraps-around-midnight" } else { "stays-within-day" });
+}
+
+const SETTER_NAMES: [&str; 12] = ["set_hour", "set_minute", "set_second", "set_milli", "set_micro", "set_nano", "clear_until_hour", "clear_until_minute", "clear_until_second", "clear_until_milli", "clear_until_micro", "clear_until_nano"];
+
+/// A Time produced by a field setter or a clear_until_* call (any offset) is still a time of day below
+/// 24:00:00, keeps its offset and is the canonical value (equal to the Time built from its own nanoseconds).
+/// Whether the setter accepted or refused the value is not judged here (C15), nor which field it set (C09).
+fn case_setter(nanos: u64, off: i32, kind: usize, value: u32, acc: &mut Acc) {
+    let t = time_from(nanos, off).unwrap();
+    acc.transitions += 1;
+    acc.states += 1;
+    let got: Out<Time> = match kind {
+        0 => crate::engine::call_res(|| t.set_hour(value)),
+        1 => crate::engine::call_res(|| t.set_minute(value)),
+        2 => crate::engine::call_res(|| t.set_second(value)),
+        3 => crate::engine::call_res(|| t.set_milli(value)),
+        4 => crate::engine::call_res(|| t.set_micro(value)),
+        5 => crate::engine::call_res(|| t.set_nano(value)),
+        6 => call(|| t.clear_until_hour()),
+        7 => call(|| t.clear_until_minute()),
+        8 => call(|| t.clear_until_second()),
+        9 => call(|| t.clear_until_milli()),
+        10 => call(|| t.clear_until_micro()),
+        _ => call(|| t.clear_until_nano()),
+    };
+    let case = || json!({"kind": "setter", "nanos": nanos.to_string(), "off": off, "setter": kind, "value": value});
+    let op = format!("Time::{}", SETTER_NAMES[kind.min(11)]);
+    match &got {
+        Out::Panic(m) => acc.violation(&op, "setter-panic", case(), "a Time below 24:00:00 or an error".into(), format!("PANIC({})", m)),
+        Out::Err(_) => acc.branch("setter-refused"),
+        Out::Val(v) => {
+            acc.branch("setter-accepted");
+            let n = v.as_nanos();
+            if n != nanos {
+                acc.nontrivial += 1;
+            }
+            if n >= ab::DAY_NS {
+                acc.violation(&op, "setter-not-below-one-day", case(), format!("as_nanos() < {}", ab::DAY_NS), format!("as_nanos() = {}", n));
+            } else if off_secs(v.get_offset()) != off {
+                acc.violation(&op, "setter-offset-not-kept", case(), format!("offset {}", off), format!("offset {}", off_secs(v.get_offset())));
+            } else if let Some(c) = time_from(n, off) {
+                if *v != c || format!("{:?}", v) != format!("{:?}", c) {
+                    acc.violation(&op, "setter-not-canonical", case(), format!("{:?}", c), format!("{:?}", v));
+                }
+            }
+        }
+    }
 }
 
 fn case_from_dt(day: i64, nod: u64, off: i32, acc: &mut Acc) {
@@ -136,7 +183,7 @@ pub fn run(ctx: &Ctx) -> i32 {
     let mut rep = Report::new(ctx);
     rep.rule = "states = distinct (time, offset, operation, amount) tuples and E2 machine states; transitions = real calls compared with (t +/- amount) mod 86 400e9 ns (offset kept), plus the invariant as_nanos() < one day and equality with / same display as the canonical Time on every result; non-trivial = results different from the receiver".into();
     rep.assumptions = vec!["random nanoseconds of the quantifier are replaced by every second of the day x sub-second boundary values and a complete count axis (thorough) / 1/65537 count lattice (quick)".into()];
-    rep.require(&["wraps-around-midnight", "stays-within-day", "from-datetime-bc", "from-datetime-ad", "ctor-accepted", "ctor-refused", "parsed-inside-the-day", "parse-refused"]);
+    rep.require(&["wraps-around-midnight", "stays-within-day", "from-datetime-bc", "from-datetime-ad", "ctor-accepted", "ctor-refused", "parsed-inside-the-day", "parse-refused", "setter-accepted", "setter-refused"]);
     let checked = PROFILE == "checked";
     let counts = ab::counts_b();
     let nc = counts.len() as u64;
@@ -205,6 +252,29 @@ pub fn run(ctx: &Ctx) -> i32 {
         let j = i / 2;
         let o = ob[(j % nob) as usize];
         case_op(tgrid[(j / nob) as usize], 0, &if i % 2 == 0 { TmOp::SetOff(o) } else { TmOp::AsOff(o) }, acc);
+    });
+    // field setters and clear_until_* on Times with an offset: the result is still a canonical time of day
+    let mut setters: Vec<(usize, u32)> = vec![];
+    for h in 0..=24u32 {
+        setters.push((0, h));
+    }
+    for m in 0..=60u32 {
+        setters.push((1, m));
+        setters.push((2, m));
+    }
+    for (k, top) in [(3usize, 999u32), (4, 999_999), (5, 999_999_999)] {
+        for v in [0, 1, top, top + 1] {
+            setters.push((k, v));
+        }
+    }
+    for k in 6..12usize {
+        setters.push((k, 0));
+    }
+    let nset = setters.len() as u64;
+    rep.sweep("field setters / clear_until_*: time grid x OFFS_B x every hour, minute, second value and sub-second bounds", ntg * nob * nset, "results of the setters stay below 24:00:00, keep the offset and are canonical", |i, acc| {
+        let (k, v) = setters[(i % nset) as usize];
+        let j = i / nset;
+        case_setter(tgrid[(j / nob) as usize], ob[(j % nob) as usize], k, v, acc);
     });
     // Time::from(DateTime)
     let days = if ctx.thorough { ab::days_b() } else { ab::days_b_small() };
@@ -286,6 +356,7 @@ pub fn run(ctx: &Ctx) -> i32 {
 pub fn replay(_op: &str, case: &Value, acc: &mut Acc) -> bool {
     match case["kind"].as_str() {
         Some("op") => case_op(case["nanos"].as_str().unwrap().parse().unwrap(), case["off"].as_i64().unwrap() as i32, &machine::tm_op_from_json(&case["op"]).unwrap(), acc),
+        Some("setter") => case_setter(case["nanos"].as_str().unwrap().parse().unwrap(), case["off"].as_i64().unwrap() as i32, case["setter"].as_u64().unwrap() as usize, case["value"].as_u64().unwrap() as u32, acc),
         Some("from_dt") => case_from_dt(case["day"].as_i64().unwrap(), case["nod"].as_str().unwrap().parse().unwrap(), case["off"].as_i64().unwrap() as i32, acc),
         Some("ctor_nanos") => case_ctor_nanos(case["n"].as_str().unwrap().parse().unwrap(), acc),
         Some("ctor_seconds") => case_ctor_seconds(case["s"].as_u64().unwrap() as u32, acc),
